@@ -747,6 +747,6 @@ func c22CheckParallel(c *kit.Case, in c22Input) {
 func TestVerif_C22(t *testing.T) {
 	s := kit.Begin(t, "C22")
 	defer s.Finish()
-	kit.Run(s, "accumulation_round_repeated", kit.N{Quick: 1000, Thorough: 4000}, c22Gen, c22CheckRound)
-	kit.Run(s, "parallel_step_repeated", kit.N{Quick: 400, Thorough: 2000}, c22Gen, c22CheckParallel)
+	kit.Run(s, "accumulation_round_repeated", kit.N{Quick: 400, Thorough: 600}, c22Gen, c22CheckRound)
+	kit.Run(s, "parallel_step_repeated", kit.N{Quick: 160, Thorough: 300}, c22Gen, c22CheckParallel)
 }
